@@ -72,6 +72,26 @@ Proof. exact (conj lend_test_unsound lend_test_refuted). Qed.
    step / apply / run / quiet are the model instantiated with the generated flags. *)
 Definition C12_repaired : bool := recycle_keeps_inflight || define_rejects_inflight.
 
+(* Step.after_recycle is translated statement by statement (gen.GenLimits.after_recycle_ops) and interpreted by
+   the model (run_ops). FRAME FACTS, for every statement list:
+   - Workflow.mark_step_pending (the statement `self.graph.mark_step_pending(self)`, under whatever condition:
+     FAILED state, changed env_overrides) never touches the claims or the executing commands of the row; on a
+     row in flight (RUNNING/CHECKING) it changes nothing; otherwise it writes PENDING and the trigger zeroes
+     _holding;
+   - a list whose writes of _holding / step_resource are all under `not in_flight` (the only lists for which
+     the translator sets recycle_keeps_inflight) returns a row in flight exactly as it got it. *)
+Theorem C12_mark_pending_frame : forall z,
+  cmds (mark_pending_row z) = cmds z /\ rclaims (mark_pending_row z) = rclaims z /\
+  (in_flight z = true -> mark_pending_row z = z) /\
+  (in_flight z = false -> st (mark_pending_row z) = Pending /\ holding (mark_pending_row z) = 0%N).
+Proof. exact mark_pending_frame. Qed.
+
+Theorem C12_after_recycle_frame :
+  (forall k eo cl ops y, cmds (run_ops k eo cl ops y) = cmds y) /\
+  (forall eo cl ops y, ops_guarded ops = true -> in_flight y = true -> run_ops true eo cl ops y = y) /\
+  (recycle_keeps_inflight = true -> ops_guarded after_recycle_ops = true).
+Proof. exact (conj run_ops_cmds (conj guarded_ops_frame keeps_inflight_guarded)). Qed.
+
 (* FULL statement (all histories of the faithful model): *)
 Definition C12_resources_full : Prop :=
   forall (s0 : sys) (evs : list event), Inv s0 ->
@@ -309,8 +329,8 @@ Example C12_example_inv : Inv sys0 /\ Uall (avail sys0) (db sys0).
 Proof. split; [exact sys0_inv|exact sys0_U]. Qed.
 
 Definition ex_hist : list event :=
-  [ EDefine 0 1 0 [(1%N, 1%N)] need_DEFAULT; EDefine 0 2 0 [(1%N, 1%N)] need_DEFAULT;
-    EDefine 0 3 0 [(7%N, 1%N)] need_DEFAULT; meta_all; EDispatch 1 ].
+  [ EDefine 0 1 0 [(1%N, 1%N)] need_DEFAULT false; EDefine 0 2 0 [(1%N, 1%N)] need_DEFAULT false;
+    EDefine 0 3 0 [(7%N, 1%N)] need_DEFAULT false; meta_all; EDispatch 1 ].
 
 Example C12_example_guard :
   step (run sys0 ex_hist) (EDispatch 2) = None /\
@@ -336,9 +356,27 @@ Proof.
   - vm_compute. reflexivity.
 Qed.
 
+(* full recycle of a SUCCEEDED step: it keeps its state unless the env_overrides of the new declaration differ
+   (then PENDING, hash kept: it is checked again); a step in flight is not touched by that statement *)
+Definition ex_env (eo : bool) : list event :=
+  [ EDefine 0 1 0 [] need_DEFAULT false; meta_all; EDispatch 1; EReset 1;
+    EDefine 1 2 0 [] need_DEFAULT false; meta_all; EDispatch 2; EReset 2; EComplete 2 0 OSucc;
+    EComplete 1 0 ODefer; meta_all; EDispatch 1; EReset 1; EDefine 1 2 0 [] need_DEFAULT eo ].
+
+Example C12_example_env_overrides :
+  map (fun x => (st x, has_hash x)) (skipn 2 (db (run_gen false false sys0 (ex_env false)))) = [(Succeeded, true)] /\
+  map (fun x => (st x, has_hash x)) (skipn 2 (db (run_gen false false sys0 (ex_env true)))) = [(Pending, true)] /\
+  forall cl nd y, in_flight y = true -> holding y = 0%N -> cl = rclaims y ->
+    core (recycle_full_row false cl nd true y) = core y.
+Proof.
+  split; [vm_compute; reflexivity|split; [vm_compute; reflexivity|]].
+  intros cl nd y Hf Hh Hcl. unfold recycle_full_row.
+  apply (run_ops_same_core false true cl y after_recycle_ops y Hf Hh Hcl eq_refl).
+Qed.
+
 (* hold: a child declared under an open hold is refused until the release *)
 Definition ex_hold : list event :=
-  [ EHold 0 0; EDefine 0 1 0 [] need_DEFAULT; meta_all ].
+  [ EHold 0 0; EDefine 0 1 0 [] need_DEFAULT false; meta_all ].
 
 Example C12_example_hold :
   step (run sys0 ex_hold) (EDispatch 1) = None /\
